@@ -90,18 +90,77 @@ def raise_kind(prefix, e, case):
     return f'{prefix}-raises-{type(e).__name__}'
 
 
+ISLOTS = ['offset', 'initial-level', 'segment-count', 'total-duration']
+ISEG_SLOTS = ['duration', 'shape-number', 'curvature', 'target-level']
+
+
+def islot_name(i):
+    return 'interp-' + (ISLOTS[i] if i < 4 else ISEG_SLOTS[(i - 4) % 4])
+
+
+def _close(a, b, rel):
+    if isinstance(a, bool) or not isinstance(a, (int, float)):
+        return False
+    return abs(a - b) <= rel * max(1.0, abs(b))
+
+
+def cmp_array(prefix, exp, arr, dontcare, namefn, approx=(), rel=1e-9):
+    """Slot-wise comparison -> disagreements (one per slot class)."""
+    if len(arr) != len(exp):
+        return [(f'{prefix}-{namefn(0).split("-")[0]}-length'
+                 if namefn is islot_name else prefix + '-length',
+                 exp, arr, '')]
+    dis, bad = [], []
+    for i, (x, y) in enumerate(zip(exp, arr)):
+        if i in dontcare:
+            continue
+        ok = _close(y, x, rel) if i in approx else _num_eq(y, x)
+        if not ok:
+            s = namefn(i)
+            if s not in bad:
+                bad.append(s)
+                dis.append((f'{prefix}-{s}', exp, arr,
+                            f'first difference of this slot at index {i}'))
+    return dis
+
+
+def single_channel(obs):
+    return isinstance(obs, list) and len(obs) == 1 and \
+        isinstance(obs[0], list)
+
+
+def interp_dontcare(spec):
+    return {ref.interpolation_index(i) for i in spec['dontcare']} - {None}
+
+
 def check_case(case):
     """-> (disagreements, outcome)"""
+    dis, outcome = _check_case(case)
+    if case.get('reuse'):
+        # a defect that needs one object used twice gets kinds of its own
+        dis = [('reuse-' + d[0],) + tuple(d[1:]) for d in dis]
+    return dis, outcome
+
+
+def _check_case(case):
     dis = []
     spec = expected_spec(case)
     exp = ref.encode(spec['levels'], spec['times'], spec['curves'],
                      spec['rel'], spec['loop'])
     prefix = 'encode' if case['f'] == 'env' else f"ctor-{case['name']}"
     outcome = {}
+    reuse = case.get('reuse')
 
-    # -- 1. construction + server array
+    # -- 1. construction + server array (reuse: the SAME object also
+    #       produces its IEnvGen layout before / in between)
+    first = interp = None
     try:
         env = make_env(case)
+        if reuse == 'ie':
+            interp = env._interpolation_format()
+        elif reuse == 'eie':
+            first = env._envgen_format()
+            interp = env._interpolation_format()
         raw = env._envgen_format()
     except Exception as e:
         dis.append((raise_kind(prefix, e, case), exp, _exc(e),
@@ -109,25 +168,27 @@ def check_case(case):
         return dis, {'raised': _exc(e)}
     obs = _plain(raw)
     outcome['array'] = obs
-    if not (isinstance(obs, list) and len(obs) == 1 and
-            isinstance(obs[0], list)):
+    if interp is not None:
+        iobs = _plain(interp)
+        outcome['interp'] = iobs
+        iexp = ref.encode_interpolation(spec['levels'], spec['times'],
+                                        spec['curves'], spec['offset'])
+        if not single_channel(iobs):
+            dis.append((prefix + '-interp-not-single-channel', [iexp], iobs,
+                        ''))
+        else:
+            dis += cmp_array(prefix, iexp, iobs[0], interp_dontcare(spec),
+                             islot_name, approx=(3,))
+    if first is not None and _plain(first) != obs:
+        dis.append((prefix + '-second-encoding-differs', _plain(first), obs,
+                    '_envgen_format() before and after '
+                    '_interpolation_format() on one object'))
+    if not single_channel(obs):
         dis.append((prefix + '-not-single-channel', [exp], obs,
                     'expected one array for a single-channel envelope'))
         return dis, outcome
     arr = obs[0]
-    if len(arr) != len(exp):
-        dis.append((prefix + '-length', exp, arr, ''))
-    else:
-        bad = []
-        for i, (x, y) in enumerate(zip(exp, arr)):
-            if i in spec['dontcare']:
-                continue
-            if not _num_eq(y, x):
-                s = slot_name(i)
-                if s not in bad:
-                    bad.append(s)
-                    dis.append((f'{prefix}-{s}', exp, arr,
-                                f'first difference of this slot at index {i}'))
+    dis += cmp_array(prefix, exp, arr, spec['dontcare'], slot_name)
 
     # -- 2. client-side evaluation
     offsets = [spec['offset']] if spec['offset'] == 0 else [spec['offset'], 0]
@@ -180,6 +241,8 @@ def check_case(case):
     # -- 3. EnvGen inputs in definition bytes
     if case.get('def'):
         dis += check_def(case, exp, spec, outcome)
+    if reuse in ('def-ie', 'def-ei'):
+        dis += check_def_reuse(case, exp, spec, outcome, reuse)
     return dis, outcome
 
 
@@ -241,11 +304,91 @@ def check_def(case, exp, spec, outcome):
     return dis
 
 
+INDEX = 0.75
+
+
+def _unit_values(defs, name):
+    units = [u for d in defs for u in d['units'] if u['name'] == name]
+    if len(defs) != 1 or len(units) != 1:
+        return None
+    consts = defs[0]['constants']
+    vals = []
+    for inp in units[0]['inputs']:
+        if inp[0] == 'c' and 0 <= inp[1] < len(consts):
+            vals.append(consts[inp[1]])
+        else:
+            vals.append(list(inp))
+    return vals
+
+
+def check_def_reuse(case, exp, spec, outcome, order):
+    """One definition in which ONE Env object feeds IEnvGen.kr and EnvGen.kr
+    (order 'def-ie': IEnvGen first; 'def-ei': EnvGen first)."""
+    from sc3.synth.synthdef import SynthDef
+    from sc3.synth.ugens.envgen import EnvGen, IEnvGen
+    from sc3.synth.ugens import Out
+
+    def graph():
+        env = make_env(case)
+        if order == 'def-ie':
+            a = IEnvGen.kr(env, INDEX)
+            b = EnvGen.kr(env, GATE, LSCALE, LBIAS, TSCALE, DONE)
+        else:
+            b = EnvGen.kr(env, GATE, LSCALE, LBIAS, TSCALE, DONE)
+            a = IEnvGen.kr(env, INDEX)
+        Out.kr(0, a)
+        Out.kr(1, b)
+
+    try:
+        sd = SynthDef('c19', graph)
+        data = bytes(sd.as_bytes())
+    except Exception as e:
+        return [(raise_kind('def', e, case), exp, _exc(e),
+                 'building a definition with IEnvGen + EnvGen raised')]
+    try:
+        defs = scgf.decode(data)['defs']
+    except Exception as e:
+        return [('def-unreadable', 'SCgf v2', _exc(e), data.hex()[:400])]
+    ev = _unit_values(defs, 'EnvGen')
+    iv = _unit_values(defs, 'IEnvGen')
+    if ev is None or iv is None:
+        return [('def-units-missing', 'one EnvGen and one IEnvGen unit',
+                 [[u['name'] for u in d['units']] for d in defs], '')]
+    outcome['def_inputs'] = ev
+    outcome['def_iinputs'] = iv
+    dis = []
+    want = [f32(x) for x in exp]
+    if len(ev) != 5 + len(want):
+        dis.append(('def-input-count', 5 + len(want), len(ev),
+                    f'inputs {ev}'))
+    else:
+        tail = ev[5:]
+        for i, (x, y) in enumerate(zip(want, tail)):
+            if i in spec['dontcare']:
+                continue
+            if not _num_eq(y, x):
+                dis.append(('def-trailing-inputs', want, tail,
+                            f'index {i} ({slot_name(i)}) differs'))
+                break
+    iwant = [f32(x) for x in ref.encode_interpolation(
+        spec['levels'], spec['times'], spec['curves'], spec['offset'])]
+    if len(iv) != 1 + len(iwant):
+        dis.append(('def-ienvgen-input-count', 1 + len(iwant), len(iv),
+                    f'inputs {iv}'))
+    else:
+        d = cmp_array('def-ienvgen', iwant, iv[1:], interp_dontcare(spec),
+                      islot_name, approx=(3,), rel=1e-6)
+        dis += d[:1]
+    return dis
+
+
 # ---------------------------------------------------------------------------
 # Non-triviality (DESIGN 2.6, C19 row: the input lies on a boundary - wrapped
 # list, shape-domain edge, node present - or mixes types)
 
 def is_nontrivial(case):
+    if case.get('reuse'):
+        return True     # one object used for several encodings
     if case['f'] == 'env':
         n = len(case['levels']) - 1
         t, c = case['times'], case['curves']
@@ -534,15 +677,61 @@ def families(tier):
         'name': 'xyc', 'def': None, 'ties': True,
         'X': [0, 1, 2] if q else [0, 0.5, 1, 2], 'Y': [0, 1, 2],
         'maxpts': 3, 'Clist': ['lin', -4, 'exp']}, 32))
+    # 6. same object, several uses: IEnvGen layout then EnvGen array then
+    #    _at; EnvGen, IEnvGen, EnvGen again, _at; one definition in which the
+    #    same Env feeds IEnvGen.kr and EnvGen.kr (both orders)
+    fams.append(('env-reuse', 'env', {
+        'n': [1, 2, 3],
+        'L': {'1': [0, 1, 2], '2': [0, 1, 2], '3': [0, 2]},
+        'T': [0.5], 'Tscalar': [2], 'Tmaxlen': 2,
+        'Cscalar': SCALAR_CURVES, 'Clists': [['sin', 2]],
+        'nodes': [[None, None], [1, 0]], 'reuse': REUSE_MODES}, 32))
+    fams.append(('ctor-perc-reuse', 'ctor', {
+        'name': 'perc', 'reuse': REUSE_MODES,
+        'menus': {'attack_time': [D, 0.5], 'release_time': [D, 2],
+                  'level': [D, 2], 'curve': [D, 'sin', 'sqr', 2]}}, 4))
+    fams.append(('ctor-adsr-reuse', 'ctor', {
+        'name': 'adsr', 'reuse': REUSE_MODES,
+        'menus': {'attack_time': [D, 0.5], 'decay_time': [D],
+                  'sustain_level': [D, 0.25], 'release_time': [D],
+                  'peak_level': [D, 2], 'curve': [D, 'sin'],
+                  'bias': [D, 0.5]}}, 4))
+    fams.append(('ctor-cutoff-reuse', 'ctor', {
+        'name': 'cutoff', 'reuse': REUSE_MODES,
+        'menus': {'release_time': [D, 2], 'level': [D, 2],
+                  'curve': [D] + SCALAR_CURVES}}, 4))
+    fams.append(('ctor-step-reuse', 'step', {
+        'name': 'step', 'L': [0, 1], 'T': [0.5, 1], 'maxlen': 2,
+        'reuse': REUSE_MODES}, 4))
+    fams.append(('ctor-pairs-reuse', 'points', {
+        'name': 'pairs', 'X': [0.5, 1, 2], 'Y': [0, 1], 'maxpts': 3,
+        'Cscalar': ['sin'], 'Clist': ['lin', -4], 'reuse': REUSE_MODES}, 8))
     return fams
 
 
 # ---------------------------------------------------------------------------
 
+REUSE_MODES = ['ie', 'eie', 'def-ie', 'def-ei']
+
+
+def with_reuse(cases, modes):
+    """Each case once per 'same object, several uses' scenario."""
+    if not modes:
+        yield from cases
+        return
+    for case in cases:
+        for m in modes:
+            c = dict(case)
+            c.pop('def', None)
+            c['reuse'] = m
+            yield c
+
+
 def work(job):
     acc = progenum.Acc(max_samples=1)
     gen = GENS[job['gen']]
-    for case in gen(job['params'], job['shard'], job['of']):
+    for case in with_reuse(gen(job['params'], job['shard'], job['of']),
+                           job['params'].get('reuse')):
         dis, outcome = check_case(case)
         for kind, exp, obs, detail in dis:
             acc.violation(kind, case, _plain(exp), obs, detail,
@@ -551,7 +740,7 @@ def work(job):
         acc.case(case, nontrivial=is_nontrivial(case), outcome=outcome,
                  steps=1 + nat + (1 if case.get('def') else 0))
         acc.count('at_evaluations', nat)
-        if case.get('def'):
+        if case.get('def') or str(case.get('reuse')).startswith('def'):
             acc.count('definitions_decoded')
     acc.count('cases_' + job['family'], acc.ev)
     return acc.result()
